@@ -8,12 +8,23 @@ def _load(n):
 COMMON = dict(src="C12_dup.c", env=["vp_alloc.c", "vp_libc.c"], units=["hwloc/bitmap.c", "hwloc/traversal.c", "hwloc/cpukinds.c"], unwind=14, checks="safety", object_bits=11, timeout=1700,
               unwindset=seed_uw(**{"strcmp.0": 24, "strlen.0": 24, "strdup.0": 24, "realloc.0": 200}),
               stubs=["seed environment stubs of vp_seed.h"], assumptions=["allocation never fails"])
-HARNESSES = [
-  dict(COMMON, name="cpukinds_dup", entry="h_cpukinds_dup", encoded=["hwloc_internal_cpukinds_dup", "hwloc__tma_dup_infos"], tiers={"quick": {}, "thorough": {}},
-       bounds="two kinds with arbitrary disjoint cpusets over the seed PUs, arbitrary forced efficiencies, one info pair", cost=40),
-]
+HARNESSES = []
+for nk, tiers in ((2, {"quick": {}, "thorough": {}}), (3, {"thorough": {}})):
+    HARNESSES.append(dict(src="C12_cpukinds.c", env=["vp_alloc.c", "vp_libc.c"], units=["hwloc/bitmap.c", "hwloc/cpukinds.c", "hwloc/topology.c", "hwloc/traversal.c"], name="cpukinds_dup_%d" % nk, entry="h_cpukinds_dup", defines={"NK": nk},
+        unwind=10, unwindset={"strlen.0": 12, "strcpy.0": 12}, checks="safety", object_bits=11, timeout=900, encoded=["hwloc_internal_cpukinds_dup", "hwloc__tma_dup_infos", "hwloc_bitmap_tma_dup"], tiers=tiers,
+        stubs=["table built directly in its representation (registration: C15)"], assumptions=["allocation never fails"],
+        bounds="%d kinds with arbitrary 1-word cpusets, efficiencies, ranking values; one info pair in a half-full array" % nk, cost=20))
+MINI_UW = dict({"vp_mini_build_at.%d" % k: 24 for k in range(12)}, **{"strlen.0": 8, "strcpy.0": 8, "strcmp.0": 8, "served.0": 162, "hwloc__topology_dup.0": 24, "hwloc__topology_dup.1": 24, "hwloc__topology_dup.2": 24,
+               "hwloc__topology_init.0": 24, "hwloc__topology_filter_init.0": 24, "hwloc_reset_normal_type_depths.0": 24, "hwloc_connect_levels.0": 24, "hwloc_connect_levels.1": 24, "hwloc_connect_levels.2": 24,
+               "hwloc_connect_levels.3": 24, "hwloc_connect_levels.4": 24, "hwloc_connect_levels.5": 24, "hwloc_connect_special_levels.0": 24, "hwloc_connect_special_levels.1": 24, "hwloc_topology_setup_defaults.0": 24})
+DUPF = ["hwloc__topology_dup", "hwloc__topology_init", "hwloc__duplicate_object", "hwloc_bitmap_tma_dup", "hwloc__tma_dup_infos", "hwloc_tma_strdup", "hwloc_tma_calloc", "hwloc_connect_children", "hwloc_connect_levels", "hwloc_internal_distances_dup", "hwloc_internal_memattrs_dup", "hwloc_internal_cpukinds_dup"]
+for nl, tiers in ((5, {"quick": {}, "thorough": {}}), (0, {"thorough": {}}), (1, {"thorough": {}})):
+    HARNESSES.append(dict(src="C12_dup_blocks.c", env=["vp_alloc.c", "vp_libc.c"], units=["hwloc/bitmap.c", "hwloc/traversal.c", "hwloc/topology.c", "hwloc/distances.c", "hwloc/memattrs.c", "hwloc/cpukinds.c"],
+        name="dup_blocks_mini_n%d" % nl, entry="h_dup_blocks", defines={"NAMELEN": nl}, unwind=10, unwindset=MINI_UW, checks="safety", object_bits=12, timeout=1700, encoded=DUPF, tiers=tiers,
+        stubs=["topology: the hand-linked 9-object topology of vp_mini.h + a name of %d bytes, a subtype, half-full info arrays on an object and on the topology" % nl, "allocator: every tma request served by a recorded heap object of exactly the requested size", "components/backends/binding hooks: empty"],
+        assumptions=["allocation never fails"], bounds="one topology (9 objects); name of %d bytes; the run is concrete: CBMC acts as a bounds-checking interpreter of the whole duplication" % nl, cost=60))
 # shared harnesses (same source, same queries) from the sibling specs: whole-topology dup through exact-size blocks, distances list, bitmap
-for spec, names in (("C19", ("dup_blocks_s2",)), ("C13", ("dup",)), ("C14", ("dup", "dup_emptied")), ("C03", ("unop_dup",))):
+for spec, names in (("C13", ("dup",)), ("C14", ("dup", "dup_emptied")), ("C03", ("unop_dup",))):
     m = _load(spec)
     for h in m.HARNESSES:
         if h["name"] in names:
